@@ -41,6 +41,7 @@ class MySQLColumn(dbschema.Column):
 class MySQLSchema(dbschema.DBSchema):
     dialect = 'MySQL'
     inline_fk_syntax = False
+    case_insensitive_names = True  # table names: depends on lower_case_table_names
     column_class = MySQLColumn
 
 class MySQLTranslator(SQLTranslator):
